@@ -138,6 +138,10 @@ func (e *Engine) callStatic(st *State, fr *Frame, callee *ssa.Function, env TEnv
 		return
 	}
 	c := e.contractFor(callee)
+	e.logCall(st, callee, args)
+	if c != nil && e.inlineCall(callee) {
+		c = nil
+	}
 	if c != nil && c.Mode == "rangeloop" {
 		key := e.contractKey(callee)
 		e.callees[key] = true
@@ -241,6 +245,7 @@ func (e *Engine) callContract(st *State, fr *Frame, callee *ssa.Function, c *Con
 	for n, v := range vars {
 		cfr.names[n] = NameBinding{V: v}
 	}
+	e.calleeEntryHeld(st, c, key, pos, false)
 	isAction := e.atomicMode() && c.Trusted
 	if isAction {
 		e.interfere(st)
@@ -404,6 +409,12 @@ func (e *Engine) havocAssigns(st *State, pre *State, c *Contract, se *SpecEnv, v
 			e.storeLoc(st, loc, nv)
 		case a == "maps":
 			e.havocMaps(st)
+		case a == "chans" || strings.HasPrefix(a, "chan("):
+			if e.atomicMode() {
+				e.chanInterfere(st, nil) // the callee's channel operations are indistinguishable from interference
+			} else {
+				e.havocChans(st, chBitRecv|chBitSend|chBitClose)
+			}
 		case a == "heap":
 			e.havocAllHeaps(st)
 		case strings.HasPrefix(a, "map("):
